@@ -22,6 +22,17 @@ chk("C17", "enum",
     "Trusts sort.Slice, time.Time.After and the 6-instant alphabet (small-scope: the comparator only uses After on two instants per item).",
     "DESIGN.md §3 C17")
 
+chk("C01", "enum",
+    "bounded-exhaustive enumeration of a reflection-derived value universe on the implementation; oracle = reflection canon (normal forms N1-N6), not the encoders",
+    "Every value of the universe (level 0/1/saturated, depth 2; thorough adds level 2 and depth 3) is encoded and decoded by the real codec through both entry pairs and the canonical trees are compared; a dropped, renamed, moved or changed property shows up at exactly the (type, term, shape) cell where it lives.",
+    "Alphabet finite (DESIGN.md §1.2); trusts reflect, the canon normal forms and the small-scope hypothesis that the codecs treat properties independently.",
+    "DESIGN.md §3 C01")
+chk("C03", "enum",
+    "bounded-exhaustive enumeration of the value universe (plus nanosecond/non-UTC instants, negative/sub-second durations) through all three gob entry pairs; oracle = reflection canon with N1, N2, N6 only",
+    "Same universe as C01 with the gob-only shapes; package GobEncode/GobDecode, T.GobEncode/(*T).GobDecode and MarshalBinary/UnmarshalBinary are all executed and compared by canonical tree at nanosecond precision.",
+    "Alphabet finite; trusts reflect, encoding/gob and the canon.",
+    "DESIGN.md §3 C03")
+
 manifest = {
     "version": 1,
     "setup_cmd": "./setup.sh",
